@@ -75,7 +75,7 @@ fn obs_term(o: &Obs) -> T {
     T::Tup(vec![T::B(o.enabled), T::B(o.has), T::N(o.count as u128), idx])
 }
 
-pub struct VHistory { ops: Vec<T>, outs: Vec<T>, violation: Option<String>, tags: Vec<String>, nontrivial: bool, known_class: bool }
+pub struct VHistory { ops: Vec<T>, outs: Vec<T>, violation: Option<String>, tags: Vec<String>, nontrivial: bool }
 
 fn fresh_emb(r: &mut Rng, counter: &mut u32, pool: &mut Vec<Vec<f32>>) -> Vec<f32> {
     // mostly distinct vectors; sometimes a repeat of an earlier one (two frames at distance 0), negative zero, large values
@@ -92,11 +92,12 @@ fn fresh_emb(r: &mut Rng, counter: &mut u32, pool: &mut Vec<Vec<f32>>) -> Vec<f3
     e
 }
 
-pub fn run_history(r: &mut Rng, nops: usize, profile: u64) -> VHistory {
+pub fn run_history(r: &mut Rng, nops: usize, profile: u64, script: Option<&[VOp]>) -> VHistory {
+    let nops = script.map(|s| s.len()).unwrap_or(nops);
     let mut d = Driver::new();
     let mut ops_terms: Vec<T> = vec![]; let mut outs: Vec<T> = vec![];
     let mut tags: BTreeSet<String> = BTreeSet::new();
-    let mut unknown_viol: Option<String> = None; let mut known_viol: Option<String> = None;
+    let mut unknown_viol: Option<String> = None;
     // ---- reference (acknowledged calls only) ----
     let mut active: Vec<bool> = vec![];                 // per frame id
     let mut is_doc: Vec<bool> = vec![];                 // Document (not chunk) frames: update/delete targets
@@ -104,7 +105,6 @@ pub fn run_history(r: &mut Rng, nops: usize, profile: u64) -> VHistory {
     let mut given: BTreeMap<u64, Vec<u32>> = BTreeMap::new();
     let mut pending_given: Vec<u64> = vec![];           // ids given an embedding since the last quiescent point
     let mut disk_has_manifest = false;                  // the TOC in the file has a vec manifest
-    let mut known_class = false;
     let mut counter = 0u32; let mut pool: Vec<Vec<f32>> = vec![];
     let mut uri_counter = 0u32; let mut next_tag = 1000u64;
     let mut survived_commit = false; let mut touched_embedded = false;
@@ -119,7 +119,7 @@ pub fn run_history(r: &mut Rng, nops: usize, profile: u64) -> VHistory {
             if !pref.is_empty() && r.chance(5, 6) { pref[r.below(pref.len() as u64) as usize] }
             else if !docs.is_empty() { docs[r.below(docs.len() as u64) as usize] } else { n_committed }
         };
-        let op = if i + 1 == nops { VOp::Commit }
+        let op = if let Some(s) = script { s[i].clone() } else if i + 1 == nops { VOp::Commit }
         else if c < 46 || n_committed == 0 && c < 70 {
             let k = r.below(100);
             let uri = if r.chance(1, 3) { uri_counter += 1; Some(uri_counter) } else { None };
@@ -130,7 +130,8 @@ pub fn run_history(r: &mut Rng, nops: usize, profile: u64) -> VHistory {
                 let n = std::str::from_utf8(&text).ok().and_then(|t| memvid_core::verif_hooks::plan_text_chunks(t)).map(|p| p.2.len()).unwrap_or(0);
                 let m = match r.below(6) { 0 => 0, 1 => n.saturating_sub(1), 2 => n + 2, 3 => 1, _ => n };
                 let parent = if r.chance(2, 3) { Some(fresh_emb(r, &mut counter, &mut pool)) } else { None };
-                let chunks = (0..m).map(|_| fresh_emb(r, &mut counter, &mut pool)).collect();
+                let parent = if parent.is_some() && r.chance(1, 6) { Some(vec![]) } else { parent };     // "can be empty Vec if chunks have embeddings"
+                let chunks = (0..m).map(|_| if r.chance(1, 12) { vec![] } else { fresh_emb(r, &mut counter, &mut pool) }).collect();
                 VOp::Put { kind: PayloadKind::Chunked, size, uri, parent, chunks: Some(chunks) }
             } else if k < 16 {
                 // chunk embeddings offered for a document that is not split: they are ignored (but enable the index)
@@ -146,14 +147,14 @@ pub fn run_history(r: &mut Rng, nops: usize, profile: u64) -> VHistory {
                 };
                 let kind = if size < 2000 && r.chance(1, 6) { PayloadKind::Text } else { PayloadKind::Bin };
                 let p_emb = match profile { 3 => 3, _ => 7 };            // profile 3: few embeddings (index stays disabled / placeholder longer)
-                let parent = if r.below(10) < p_emb { Some(fresh_emb(r, &mut counter, &mut pool)) } else { None };
+                let parent = if r.below(10) < p_emb { Some(if r.chance(1, 14) { vec![] } else { fresh_emb(r, &mut counter, &mut pool) }) } else { None };
                 VOp::Put { kind, size, uri, parent, chunks: None }
             }
         } else if c < 60 && n_committed > 0 {
             let target = pick_target(r, true);
             let payload = if r.chance(1, 2) { Some(r.range(1, 600) as usize) } else { None };
             let uri = if r.chance(1, 6) { uri_counter += 1; Some(uri_counter) } else { None };
-            let explicit = if r.chance(2, 5) { Some(fresh_emb(r, &mut counter, &mut pool)) } else { None };
+            let explicit = if r.chance(2, 5) { Some(if r.chance(1, 8) { vec![] } else { fresh_emb(r, &mut counter, &mut pool) }) } else { None };
             VOp::Update { target, payload, uri, explicit }
         } else if c < 70 && n_committed > 0 { VOp::Delete { target: pick_target(r, true) } }
         else if c < 72 { VOp::EnableVec }
@@ -193,10 +194,10 @@ pub fn run_history(r: &mut Rng, nops: usize, profile: u64) -> VHistory {
                     let id = active.len() as u64;
                     if id != next_before { unknown_viol.get_or_insert(format!("id-prediction: op {} next_frame_id() {} but {} frames were acknowledged", i, next_before, id)); }
                     active.push(true); is_doc.push(true); chunked.push(nchunks > 0);
-                    if let Some(p) = parent { given.insert(id, bits(p)); pending_given.push(id); }
+                    if let Some(p) = parent { if !p.is_empty() { given.insert(id, bits(p)); pending_given.push(id); } else { tags.insert("empty-vector".into()); } }
                     for j in 0..nchunks {
                         active.push(true); is_doc.push(false); chunked.push(false);
-                        if let Some(e) = chunks.as_ref().and_then(|cs| cs.get(j as usize)) { given.insert(id + 1 + j, bits(e)); pending_given.push(id + 1 + j); tags.insert("chunk-embedding".into()); }
+                        if let Some(e) = chunks.as_ref().and_then(|cs| cs.get(j as usize)) { if !e.is_empty() { given.insert(id + 1 + j, bits(e)); pending_given.push(id + 1 + j); tags.insert("chunk-embedding".into()); } else { tags.insert("empty-vector".into()); } }
                     }
                     if nchunks > 0 { tags.insert("chunked".into()); }
                 }
@@ -218,7 +219,7 @@ pub fn run_history(r: &mut Rng, nops: usize, profile: u64) -> VHistory {
                 out_term = T::Tup(vec![if ok { T::C("Ok", vec![T::N(seq as u128)]) } else { T::C("Err", vec![T::N(errk)]) }, T::N(fc as u128), T::N(na as u128)]);
                 if ok {
                     let id = active.len() as u64;
-                    let carried = match explicit { Some(e) => { tags.insert("update-explicit".into()); Some(bits(e)) } None => { let c = given.get(target).cloned(); if c.is_some() { tags.insert("update-carry".into()); } c } };
+                    let carried = match explicit { Some(e) if e.is_empty() => { tags.insert("empty-vector".into()); None } Some(e) => { tags.insert("update-explicit".into()); Some(bits(e)) } None => { let c = given.get(target).cloned(); if c.is_some() { tags.insert("update-carry".into()); } c } };
                     if given.contains_key(target) { touched_embedded = true; }
                     active[*target as usize] = false;
                     active.push(true); is_doc.push(true); chunked.push(false);
@@ -261,13 +262,12 @@ pub fn run_history(r: &mut Rng, nops: usize, profile: u64) -> VHistory {
                     VOp::Doctor(b) => {
                         tags.insert(if b & 4 != 0 { "doctor-vec".into() } else { "doctor".into() });
                         if let Some(st) = d.last_doctor.clone() { if st == "panic" || st.starts_with("error") || st == "Failed" { unknown_viol.get_or_insert(format!("doctor-failed: op {} doctor ended with {}", i, st)); } }
-                        if b & 4 != 0 { known_class = true; }
                     }
                     VOp::Vacuum => { tags.insert("vacuum".into()); }
                     VOp::Reopen => { tags.insert("reopen".into()); }
                     VOp::Crash => {
                         tags.insert("crash".into());
-                        if !disk_before && pending_had_embedding { known_class = true; tags.insert("crash-before-vec-manifest".into()); }
+                        if !disk_before && pending_had_embedding { tags.insert("crash-before-vec-manifest".into()); }
                         if disk_before && pending_had_embedding { tags.insert("crash-replays-embeddings".into()); }
                     }
                     _ => {}
@@ -319,13 +319,13 @@ pub fn run_history(r: &mut Rng, nops: usize, profile: u64) -> VHistory {
             if !problems.is_empty() {
                 let only_missing = extra.is_empty() && problems.len() == 1 && !missing.is_empty();
                 let text = format!("after op {} {:?}: {}", i, short(&op), problems.join("; "));
-                match &op {
-                    VOp::Doctor(b) if b & 4 != 0 && only_missing && reach.is_empty() =>
-                        { known_viol.get_or_insert(format!("doctor-vec-rebuild: doctor with rebuild_vec_index empties the vector index: {}", text)); }
-                    VOp::Crash if !disk_before && pending_had_embedding && only_missing && missing.iter().all(|m| pending_given.contains(m)) =>
-                        { known_viol.get_or_insert(format!("crash-before-vec-manifest: exit without commit before the vec manifest reached the file: replay drops the pending embeddings: {}", text)); }
-                    _ => { unknown_viol.get_or_insert(format!("membership-mismatch: {}", text)); }
-                }
+                // F-C14-1 / F-C14-2 are repaired (83a83e8, 8099cac): their classes are ordinary violations again
+                let class = match &op {
+                    VOp::Doctor(b) if b & 4 != 0 && only_missing && reach.is_empty() => "doctor-vec-rebuild",
+                    VOp::Crash if !disk_before && pending_had_embedding && only_missing && missing.iter().all(|m| pending_given.contains(m)) => "crash-before-vec-manifest",
+                    _ => "membership-mismatch",
+                };
+                unknown_viol.get_or_insert(format!("{}: {}", class, text));
                 // resynchronise the reference with the implementation so the rest of the history is still checked
                 given.retain(|id, _| reach.contains_key(id) || !active.get(*id as usize).cloned().unwrap_or(false));
                 for (id, e) in &reach { given.insert(*id, e.clone()); }
@@ -336,7 +336,7 @@ pub fn run_history(r: &mut Rng, nops: usize, profile: u64) -> VHistory {
     let nontrivial = survived_commit && touched_embedded;
     let mut tags: Vec<String> = tags.into_iter().collect();
     tags.push(format!("profile{}", profile));
-    VHistory { ops: ops_terms, outs, violation: unknown_viol.or(known_viol), tags, nontrivial, known_class }
+    VHistory { ops: ops_terms, outs, violation: unknown_viol, tags, nontrivial }
 }
 
 fn short(op: &VOp) -> String {
@@ -347,16 +347,42 @@ fn short(op: &VOp) -> String {
     }
 }
 
+/// fixed histories run before the generated ones: the witnesses of the repaired findings
+/// (F-C14-1 doctor with rebuild_vec_index, F-C14-2 exit before the vec manifest reached the file),
+/// their combinations, and empty vectors
+fn corpus() -> Vec<Vec<VOp>> {
+    let e = |k: u32| -> Vec<f32> { vec![k as f32, 2.0, -0.5 * k as f32, 4.0] };
+    let put = |p: Option<Vec<f32>>| VOp::Put { kind: PayloadKind::Bin, size: 40, uri: None, parent: p, chunks: None };
+    let upd = |t: u64, payload: Option<usize>, x: Option<Vec<f32>>| VOp::Update { target: t, payload, uri: None, explicit: x };
+    vec![
+        vec![put(Some(e(1))), VOp::Commit, VOp::Doctor(4), VOp::Reopen],
+        vec![put(Some(e(1))), VOp::Crash, put(Some(e(2))), VOp::Commit],
+        vec![put(Some(e(1))), put(Some(e(2))), put(None), VOp::Commit, upd(0, Some(10), None), VOp::Delete { target: 1 }, VOp::Commit,
+             VOp::Doctor(12), VOp::Doctor(7), VOp::Vacuum, VOp::Reopen, upd(3, None, None), VOp::Doctor(15), VOp::Commit],
+        vec![VOp::Put { kind: PayloadKind::Chunked, size: 4000, uri: Some(1), parent: None, chunks: Some(vec![e(3), e(4), e(5)]) }, VOp::Crash,
+             put(Some(e(6))), VOp::Commit, VOp::Doctor(4), VOp::Delete { target: 0 }, VOp::Crash],
+        vec![put(Some(vec![])), VOp::Commit, put(Some(e(1))), put(Some(vec![])), VOp::Commit, upd(1, None, Some(vec![])), upd(0, Some(5), Some(e(2))), VOp::Commit, VOp::Reopen],
+        vec![VOp::EnableVec, VOp::Commit, put(Some(e(1))), VOp::Crash, VOp::Doctor(4), VOp::Commit],
+        vec![put(None), VOp::Commit, VOp::Doctor(4), put(Some(e(1))), VOp::Crash, VOp::Doctor(6), VOp::Reopen],
+        vec![put(Some(e(1))), upd(0, None, None), VOp::Crash, upd(0, None, None), VOp::Crash, VOp::Doctor(5)],
+    ]
+}
+
 pub fn run(seed: u64, n: usize, w: &mut dyn std::io::Write) {
     // real-memory histories fsync on every commit: keep the scratch files on tmpfs when there is one
     if std::env::var("MV_KEEP_TMPDIR").is_err() && std::path::Path::new("/dev/shm").is_dir() { std::env::set_var("TMPDIR", "/dev/shm"); }
     let mut r = Rng::new(seed ^ 0xC14);
-    for i in 0..n {
+    let scripts = corpus();
+    for i in 0..scripts.len() + n {
         let profile = (i % 4) as u64;
-        let nops = match profile { 0 => r.range(6, 30), 1 => r.range(10, 34), _ => r.range(8, 28) } as usize;
-        let h = run_history(&mut r, nops, profile);
+        let h = if i < scripts.len() {
+            let mut h = run_history(&mut r, 0, 0, Some(&scripts[i])); h.tags.push("corpus".into()); h
+        } else {
+            let nops = match profile { 0 => r.range(6, 30), 1 => r.range(10, 34), _ => r.range(8, 28) } as usize;
+            run_history(&mut r, nops, profile, None)
+        };
         let input = T::L(h.ops.clone());
-        let output = T::Tup(vec![T::L(h.outs.clone()), T::B(h.known_class)]);
+        let output = T::L(h.outs.clone());
         let key = blake3::hash(input.coq().as_bytes()).to_hex()[..16].to_string();
         emit(w, "hist", &Case { input, output, violation: h.violation, nontrivial: h.nontrivial, tags: h.tags, key });
     }
